@@ -330,7 +330,7 @@ def main(rep, ws, tier):
     if need - fired: rep.fail_incomplete('positive examples (selftest/pyrules_pos.cpp) no longer fire for %s' % sorted(need - fired))
     if need - quiet: rep.fail_incomplete('negative examples (selftest/pyrules_pos.cpp) no longer pass for %s' % sorted(need - quiet))
     rep.extra['positive_examples'] = {'fired': sorted(fired), 'quiet': sorted(quiet)}
-    fx = pyfacts.load(ws, repo, rep)
+    fx = pyfacts.load(ws, repo, rep, max_inst=2 if tier == 'quick' else 12)
     out = []; counts = {}
     for name, fnc in RULES: counts[name] = fnc(fx, out)
     emit(rep, out)
